@@ -218,7 +218,7 @@ Definition px_rslv (app : Z) : Z := px_base app + 3.
 (* callbacks: 0 on_accept, 1 on_read_request, 2 on_domain_lookup, 3 on_connected, 4 on_server_write,
    5 on_server_receive, 6 on_server_forward, 7 close_connection (after error()) *)
 
-Definition get_proxy (w : net) (app : Z) : proxy := mget (mkProxy 0 false [] [] false) (w_proxy w) app.
+Definition get_proxy (w : net) (app : Z) : proxy := mget (mkProxy 0 false [] [] false false) (w_proxy w) app.
 Definition set_proxy (w : net) (app : Z) (p : proxy) : net := w <| w_proxy := mset (w_proxy w) app p |>.
 
 (* ---- the string functions forward_request uses ---- *)
@@ -302,9 +302,17 @@ Definition host_id (s : list Z) : Z :=
   | _ => -1
   end.
 
+(* "[v6]" -> "v6" *)
+Definition strip_brackets (host : list Z) : list Z :=
+  match host with
+  | c :: _ => if (c =? 91) && (Nat.leb 2 (List.length host)) && (last host 0 =? 93)
+              then removelast (tl host) else host
+  | [] => host
+  end.
+
 (* forward_request, the pure part: the request as sent to the origin, the host and
    the port; None = it threw ("invalid request") *)
-Definition rewrite_request (req : request) : option (list Z * list Z * Z) :=
+Definition rewrite_request (v : variant) (req : request) : option (list Z * list Z * Z) :=
   let url := r_req req in
   if negb (list_eqb (firstn 7 url) S_HTTP) then None
   else
@@ -312,17 +320,19 @@ Definition rewrite_request (req : request) : option (list Z * list Z * Z) :=
     let head := match path_start with Some i => firstn i url | None => url end in
     let path := match path_start with Some i => skipn i url | None => [47] end in
     let host_end := find_last 58 head in
+    let host_end := if d29_proxy_v6_authority v then
+                      match find_last 93 head, host_end with
+                      | Some b, Some e => if Nat.ltb e b then None else host_end
+                      | _, _ => host_end
+                      end
+                    else host_end in
     let has_port := match host_end with Some e => Nat.ltb 7 e | None => false end in
     let host := match host_end with
                 | Some e => if Nat.ltb 7 e then firstn (e - 7) (skipn 7 url)
                             else skipn 7 head
                 | None => skipn 7 head
                 end in
-    let host := match host with
-                | 91 :: _ => if (Nat.leb 2 (List.length host)) && (last host 0 =? 93)
-                             then removelast (tl host) else host
-                | _ => host
-                end in
+    let host := strip_brackets host in
     let port := match host_end with
                 | Some e => if Nat.ltb 7 e then atoi (skipn (S e) url) else 80
                 | None => 80
@@ -385,52 +395,64 @@ Definition proxy_open_forward (cx : ctx) (app : Z) (target : endpoint) (w : net)
 Definition S_503A : list Z := B "Resource Temporarily Unavailable".
 Definition S_503B : list Z := B "Service Temporarily Unavailable".
 
-(* forward_request: (state, calls, false = it threw) *)
-Definition proxy_forward (cx : ctx) (app : Z) (req : request) (w : net) : net * list kc * bool :=
-  match rewrite_request req with
-  | None => (w, [], false)
-  | Some (out, host, port) =>
-      let p := get_proxy w app in
-      if 65536 <? Z.of_nat (List.length (px_sout p)) + Z.of_nat (List.length out) then (w, [], false)
-      else
-        let w := set_proxy w app (p <| px_sout := px_sout p ++ out |>) in
-        if negb (t_open (get_tcp w (px_server app))) then
-          match make_address host with
-          | Some a => let (w, c) := proxy_open_forward cx app {| e_addr := a; e_port := port mod 65536 |} w in (w, c, true)
-          | None =>
-              let (w, c) := rslv_resolve cx (px_rslv app) (RHost (host_id host)) port (hid_app app 2) w in (w, c, true)
-          end
-        else let (w, c) := proxy_write_server cx app w in (w, c, true)
+(* what on_read_request decides from the bytes buffered so far (pure) *)
+Inductive pdecision :=
+| PNeedMore
+| PForward (consumed : Z) (out host : list Z) (port : Z)
+| PBad.                                  (* parse_request or forward_request threw *)
+
+Definition proxy_decide (v : variant) (buf : list Z) : pdecision :=
+  match find_request_len buf (Z.of_nat (List.length buf)) with
+  | Ok len =>
+      if len <? 0 then PNeedMore
+      else match parse_request buf len with
+           | Ok req => match rewrite_request v req with
+                       | Some (out, host, port) => PForward len out host port
+                       | None => PBad
+                       end
+           | _ => PBad
+           end
+  | _ => PBad
   end.
+
+(* the rest of forward_request: queue the rewritten request, then connect, resolve or write *)
+Definition proxy_forward (cx : ctx) (app : Z) (out host : list Z) (port : Z) (w : net) : net * list kc * bool :=
+  let p := get_proxy w app in
+  if 65536 <? Z.of_nat (List.length (px_sout p)) + Z.of_nat (List.length out) then (w, [], false)
+  else
+    let w := set_proxy w app (p <| px_sout := px_sout p ++ out |>) in
+    if negb (t_open (get_tcp w (px_server app))) then
+      if d28_proxy_one_lookup (cv cx) && px_resolving p then (w, [], true)
+      else
+      match make_address host with
+      | Some a => let (w, c) := proxy_open_forward cx app {| e_addr := a; e_port := port mod 65536 |} w in (w, c, true)
+      | None =>
+          let w := set_proxy w app (get_proxy w app <| px_resolving := true |>) in
+          let (w, c) := rslv_resolve cx (px_rslv app) (RHost (host_id host)) port (hid_app app 2) w in (w, c, true)
+      end
+    else let (w, c) := proxy_write_server cx app w in (w, c, true).
 
 (* the while loop of on_read_request *)
 Fixpoint proxy_requests (fuel : nat) (cx : ctx) (app : Z) (w : net) : net * list kc :=
   match fuel with
   | O => (w, [KLog (TAG_FUEL, [16])])
   | S f =>
-      let p := get_proxy w app in
-      let buf := px_cin p in
-      match find_request_len buf (Z.of_nat (List.length buf)) with
-      | Ok len =>
-          if len <? 0 then proxy_read_client app w
-          else
-            match parse_request buf len with
-            | Ok req =>
-                let '(w, c0, ok) := proxy_forward cx app req w in
-                if ok then
-                  let p := get_proxy w app in
-                  let w := set_proxy w app (p <| px_cin := skipn (Z.to_nat len) (px_cin p) |>) in
-                  let (w, c1) := proxy_requests f cx app w in (w, c0 ++ c1)
-                else let (w, c1) := proxy_close_connection cx app w in (w, c0 ++ c1)
-            | _ => proxy_close_connection cx app w
-            end
-      | _ => proxy_close_connection cx app w
+      match proxy_decide (cv cx) (px_cin (get_proxy w app)) with
+      | PNeedMore => proxy_read_client app w
+      | PForward len out host port =>
+          let '(w, c0, ok) := proxy_forward cx app out host port w in
+          if ok then
+            let p := get_proxy w app in
+            let w := set_proxy w app (p <| px_cin := skipn (Z.to_nat len) (px_cin p) |>) in
+            let (w, c1) := proxy_requests f cx app w in (w, c0 ++ c1)
+          else let (w, c1) := proxy_close_connection cx app w in (w, c0 ++ c1)
+      | PBad => proxy_close_connection cx app w
       end
   end.
 
 Definition proxy_new (cx : ctx) (app node port : Z) (w : net) : net * list kc :=
   let a := px_acc app in
-  let w := set_proxy w app (mkProxy node false [] [] false) in
+  let w := set_proxy w app (mkProxy node false [] [] false false) in
   let w := set_rslv w (px_rslv app) (mkRslv node []) in
   let w := set_tcp w a (tcp_fresh node true) in
   let w := set_tcp w (px_client app) (tcp_fresh node false) in
@@ -461,6 +483,7 @@ Definition proxy_callback (cx : ctx) (app k : Z) (args : list Z) (w : net) : net
         let w := set_proxy w app (p <| px_cin := px_cin p ++ data |>) in
         proxy_requests (S (List.length (px_cin p ++ data))) cx app w
   | 2, e :: n :: eps =>
+      let w := set_proxy w app (p <| px_resolving := false |>) in
       if negb (e =? EC_OK) || (n =? 0) then proxy_error cx app 503 S_503A w
       else
         match eps with
